@@ -1,5 +1,5 @@
 """registry of the checks"""
-from . import p_front, p_exec
+from . import p_front, p_exec, p_analysis
 
 CHECKS = {
     'C01': p_front.c01,
@@ -14,6 +14,11 @@ CHECKS = {
     'C06': p_exec.c06,
     'C07': p_exec.c07,
     'C15': p_exec.c15,
+    'C16': p_analysis.c16,
+    'C17': p_analysis.c17,
+    'C18': p_analysis.c18,
+    'C19': p_analysis.c19,
+    'C20': p_analysis.c20,
     'C08': p_exec.c08,
     'C09': p_exec.c09,
     'C10': p_exec.c10,
